@@ -1,5 +1,7 @@
 """Correspondence drivers for Batch.v against the real HpcSubmitter (_make_batch directly, and the
-whole submission part of HpcSubmitter.run on a real Cluster with a scripted sbatch/squeue)."""
+whole submission part of HpcSubmitter.run on a real Cluster with a scripted sbatch/squeue), plus the
+Python property oracles of C07/C01 that judge what impl itself produced (config_batch_N.json, the
+submission script and the run script behind every sbatch)."""
 import glob
 import itertools
 import json
@@ -15,6 +17,7 @@ IMPORTS = "From Coq Require Import List ZArith NArith Bool.\nFrom Jade Require I
 NJ = 12
 JOBNAMES = [f"j{i}" for i in range(1, NJ + 1)]
 IDX = {n: i + 1 for i, n in enumerate(JOBNAMES)}
+OUTSIDE = "j12"          # a blocker that is never among the candidates of the exhaustive scopes
 
 
 def gparams_term(g, gidx):
@@ -90,6 +93,16 @@ def mb_oracle(g, avail, res):
         probs.append("submitted list differs from the batch")
     if set(res["blocked"]) & set(bnames):
         probs.append("job both placed and reported blocked")
+    for n in res["blocked"]:
+        if n in blk and not blk[n]:
+            probs.append(f"job {n} without unfinished blockers reported blocked")
+    lost = set(order) - set(bnames) - set(res["blocked"]) - set(res["rest"])
+    if lost:
+        probs.append("candidate neither placed, reported blocked nor handed back: %s" % sorted(lost))
+    # progress (guard of the while loop in _submit_batches): a call on a non-empty list must shorten it
+    fits = (not g["time"]) or all(60 * e <= jadeenv.group_limit_seconds(g) for e in est.values())
+    if order and fits and len(res["rest"]) >= len(order):
+        probs.append("no progress: the not-checked list is as long as the candidate list")
     return probs
 
 
@@ -130,18 +143,57 @@ def directed_avail():
     out.append((g, [("j2", ["j1"], 3), ("j3", [], 4), ("j1", [], 5), ("j4", [], 6)]))
     out.append((g, [("j2", ["j1"], 2), ("j4", ["j2"], 2), ("j3", [], 3), ("j1", [], 3)]))
     out.append((g, [("j2", ["j1"], 6), ("j1", [], 5)]))
+    out.append((g, [("j1", [], 10)]))                      # exactly the limit: must fit
+    out.append((g, [("j1", [], 4), ("j2", [], 6)]))         # sum exactly the limit
+    out.append((g, [("j1", [], 4), ("j2", [], 6), ("j3", [], 7)]))
+    out.append((dict(g, nproc=2), [("j1", [], 10), ("j2", [], 10), ("j3", [], 10)]))
     g2 = {"size": 2, "time": False, "wall_min": 10, "nproc": None, "try": True, "dry": False}
     out.append((g2, [("j2", ["j1"], 1), ("j3", ["j2"], 1), ("j1", [], 1), ("j4", [], 1)]))
     out.append((g2, [("j3", ["j2"], 1), ("j2", ["j1"], 1), ("j1", [], 1)]))
-    g3 = dict(g2, try_=False)
+    out.append((g2, [("j1", [], 1), ("j2", [], 1)]))        # exactly the batch size
+    out.append((dict(g2, size=1), [("j1", [], 1), ("j2", [], 1)]))
+    g3 = dict(g2)
     g3["try"] = False
     out.append((g3, [("j2", ["j1"], 1), ("j1", [], 1), ("j3", [], 1)]))
     return out
 
 
-def exhaustive_small(max_n, ests=(1, 2, 3)):
-    """all acyclic-or-not dependency relations among <= max_n candidates in listing order j1..jn
-    (blockers may point forwards or backwards), estimates from `ests`, a grid of parameter sets"""
+def _dags(n):
+    """all acyclic dependency relations on j1..jn (labelled: every listing order relative to the
+    dependency order occurs)"""
+    names = JOBNAMES[:n]
+    pairs = [(a, b) for a in names for b in names if a != b]
+    for mask in range(1 << len(pairs)):
+        deps = {x: [] for x in names}
+        for k, (a, b) in enumerate(pairs):
+            if mask >> k & 1:
+                deps[a].append(b)
+        # acyclic?
+        state = {}
+
+        def cyc(x):
+            if state.get(x) == 1:
+                return True
+            if state.get(x) == 2:
+                return False
+            state[x] = 1
+            r = any(cyc(y) for y in deps[x])
+            state[x] = 2
+            return r
+        acyclic = not any(cyc(x) for x in names)
+        yield deps, acyclic
+
+
+_DEPS_CACHE = {}
+
+
+def dep_relations(n):
+    if n not in _DEPS_CACHE:
+        _DEPS_CACHE[n] = list(_dags(n))
+    return _DEPS_CACHE[n]
+
+
+def param_grid():
     groups = []
     for size in (1, 2, 3):
         for tr in (False, True):
@@ -149,40 +201,85 @@ def exhaustive_small(max_n, ests=(1, 2, 3)):
     for wall in (3, 4, 6):
         for tr in (False, True):
             groups.append({"size": 500, "time": True, "wall_min": wall, "nproc": 1, "try": tr, "dry": False})
+    return groups
+
+
+def exhaustive_small(max_n, ests=(1, 2, 3), outside="none", cyclic_upto=3):
+    """<= max_n candidates j1..jn in listing order; every dependency relation among them (cyclic ones too up
+    to `cyclic_upto` candidates, all DAGs beyond: blockers point forwards or backwards, so every listing
+    order of every dependency shape occurs); estimates: every tuple over `ests` in listing order (sorted and
+    unsorted lists); parameter grid: sizes 1..3 / wall 3,4,6 min x try-add-blocked.
+    outside = "none" | "all" (every subset of the jobs additionally waits for a job outside the list)
+              | "count" (the same, count-based groups only)"""
+    groups = param_grid()
     for n in range(1, max_n + 1):
         names = JOBNAMES[:n]
-        pairs = [(a, b) for a in names for b in names if a != b]
-        for mask in range(1 << len(pairs)):
-            deps = {x: [] for x in names}
-            for k, (a, b) in enumerate(pairs):
-                if mask >> k & 1:
-                    deps[a].append(b)
-            for g in groups:
-                est_choices = itertools.product(ests, repeat=n) if g["time"] else [tuple([1] * n)]
-                for es in est_choices:
-                    if g["time"] and any(e > g["wall_min"] for e in es):
+        for deps, acyclic in dep_relations(n):
+            if not acyclic and n > cyclic_upto:
+                continue
+            outs = [()]
+            if outside != "none":
+                outs = [c for k in range(n + 1) for c in itertools.combinations(names, k)]
+            for oset in outs:
+                for g in groups:
+                    if oset and outside == "count" and g["time"]:
                         continue
-                    avail = [(x, deps[x], e) for x, e in zip(names, es)]
-                    if g["time"]:
-                        avail = sorted(avail, key=lambda t: t[2])
-                    yield g, avail
+                    est_choices = itertools.product(ests, repeat=n) if g["time"] else [tuple([1] * n)]
+                    for es in est_choices:
+                        yield g, [(x, deps[x] + ([OUTSIDE] if x in oset else []), e) for x, e in zip(names, es)]
 
 
-def run_make_batch(chk, tmp, n_random, exhaustive_n):
-    rig = MakeBatchRig(tmp)
-    cmp_ = core.CoqCompare(
-        "mb", IMPORTS,
-        "fun c => let m := make_batch (fst c) (snd c) in (map (fun j => (jname j, jblocked j)) (mb_batch m), names (mb_blocked m), names (mb_rest m))",
-        "prod_eqb (prod_eqb (list_eqb (prod_eqb N.eqb (list_eqb N.eqb))) (list_eqb N.eqb)) (list_eqb N.eqb)",
-        "gparams * list cjob", "list (N * list N) * list N * list N", shard=400)
-    dist = {"cases": 0, "time_based": 0, "try_blocked": 0, "multi_pass": 0, "nonempty_rest": 0, "with_blocked": 0,
-            "sizes": {}, "exhaustive_upto": exhaustive_n}
+def make_batch_cases(chk, n_random, tier=None):
+    """-> (cases, description)"""
+    tier = tier or chk.tier
     cases = list(directed_avail())
-    cases += list(exhaustive_small(exhaustive_n))
-    n_exh = len(cases)
+    n_dir = len(cases)
+    if tier == "quick":
+        cases += list(exhaustive_small(3))
+        ex3o = [c for c in exhaustive_small(3, outside="all") if any(OUTSIDE in b for _, b, _ in c[1])]
+        cases += ex3o[chk.rng.randrange(8)::8]
+        ex4 = [c for c in exhaustive_small(4) if len(c[1]) == 4]
+        cases += ex4[chk.rng.randrange(25)::25]
+        desc = {"exhaustive": "all <=3 candidates x all dependency relations x estimates {1,2,3}^n x 12 parameter sets",
+                "sampled": "1/8 of the <=3-candidate cases with outside blockers, 1/25 of the 4-candidate (all DAGs) cases"}
+    else:
+        cases += list(exhaustive_small(3, outside="all"))
+        cases += [c for c in exhaustive_small(4) if len(c[1]) == 4]
+        cases += [c for c in exhaustive_small(4, outside="count") if len(c[1]) == 4 and any(OUTSIDE in b for _, b, _ in c[1])]
+        desc = {"exhaustive": "all <=3 candidates x all dependency relations (cyclic too) x every subset also blocked from outside "
+                              "x estimates {1,2,3}^n x 12 parameter sets; 4 candidates x all 543 DAGs x estimates x 12 parameter "
+                              "sets; 4 candidates x DAGs x outside subsets for the count-based sets"}
+    n_exh = len(cases) - n_dir
     for _ in range(n_random):
         g = gen_group(chk.rng)
         cases.append((g, gen_avail(chk.rng, chk.rng.randint(1, NJ), g)))
+    desc.update({"directed": n_dir, "enumerated": n_exh, "random_upto_12_candidates": n_random})
+    return cases, desc
+
+
+MB_FN = ("fun c => let m := make_batch (fst c) (snd c) in (map (fun j => (jname j, jblocked j)) (mb_batch m), "
+         "names (mb_blocked m), names (mb_rest m))")
+MB_EQB = "prod_eqb (prod_eqb (list_eqb (prod_eqb N.eqb (list_eqb N.eqb))) (list_eqb N.eqb)) (list_eqb N.eqb)"
+
+
+def mb_terms(g, avail, res):
+    inp = f"({gparams_term(g, 1)}, {clist([cjob_term(n, b, e, 1) for n, b, e in avail])})"
+    exp = ("(" + clist([f"({cN(IDX[n])}, {clist([cN(IDX[b]) for b in bl])})" for n, bl in res["batch"]]) + ", "
+           + clist([cN(IDX[n]) for n in res["blocked"]]) + ", " + clist([cN(IDX[n]) for n in res["rest"]]) + ")")
+    return inp, exp
+
+
+def new_mb_compare():
+    return core.CoqCompare("mb", IMPORTS, MB_FN, MB_EQB, "gparams * list cjob", "list (N * list N) * list N * list N",
+                           shard=1500)
+
+
+def run_make_batch(chk, tmp, n_random, exhaustive_n=None):
+    rig = MakeBatchRig(tmp)
+    cmp_ = new_mb_compare()
+    cases, desc = make_batch_cases(chk, n_random)
+    dist = {"cases": 0, "time_based": 0, "try_blocked": 0, "multi_pass": 0, "nonempty_rest": 0, "with_blocked": 0,
+            "sizes": {}, "scope": desc}
     for k, (g, avail) in enumerate(cases):
         try:
             res = rig.call(g, avail)
@@ -193,9 +290,7 @@ def run_make_batch(chk, tmp, n_random, exhaustive_n):
         for pr in mb_oracle(g, avail, res):
             chk.violation("make_batch:" + pr.split(":")[0][:60], pr,
                           {"component": "HpcSubmitter._make_batch", "group": g, "candidates": avail, "impl_output": res})
-        inp = f"({gparams_term(g, 1)}, {clist([cjob_term(n, b, e, 1) for n, b, e in avail])})"
-        exp = ("(" + clist([f"({cN(IDX[n])}, {clist([cN(IDX[b]) for b in bl])})" for n, bl in res["batch"]]) + ", "
-               + clist([cN(IDX[n]) for n in res["blocked"]]) + ", " + clist([cN(IDX[n]) for n in res["rest"]]) + ")")
+        inp, exp = mb_terms(g, avail, res)
         cmp_.add(inp, exp, {"group": g, "candidates": avail, "impl": res})
         nontrivial = len(avail) >= 2 and (bool(res["rest"]) or bool(res["blocked"]) or len(res["batch"]) >= 2)
         chk.count(("mb", json.dumps(g, sort_keys=True), json.dumps(avail)), nontrivial)
@@ -206,11 +301,11 @@ def run_make_batch(chk, tmp, n_random, exhaustive_n):
         dist["with_blocked"] += bool(res["blocked"])
         dist["multi_pass"] += any(bl for _, bl in res["batch"])
         dist["sizes"][len(avail)] = dist["sizes"].get(len(avail), 0) + 1
-        if k in (0, n_exh + 5):
+        if k in (0, desc["directed"] + 5):
             chk.sample({"kind": "make_batch", "group": g, "candidates": avail, "impl": res})
-    bad = cmp_.run()
-    chk.oblige("correspondence Batch.make_batch vs HpcSubmitter._make_batch (%d cases, exhaustive <= %d candidates)"
-               % (len(cmp_.cases), exhaustive_n), not bad, "first differing: %s" % bad[:5])
+    bad = cmp_.run(timeout=1500)
+    chk.oblige("correspondence Batch.make_batch vs HpcSubmitter._make_batch (%d cases)" % len(cmp_.cases),
+               not bad, "first differing: %s" % bad[:5])
     for i in bad[:3]:
         chk.tie_broken("correspondence Batch.make_batch vs HpcSubmitter._make_batch",
                        json.dumps({"case": cmp_.cases[i][2], **cmp_.show(i)}, default=str)[:2000])
@@ -219,8 +314,40 @@ def run_make_batch(chk, tmp, n_random, exhaustive_n):
 
 
 # ---------------------------------------------------------------------------------------------
-def gen_round_scenario(rng, max_jobs=8):
-    n = rng.randint(1, max_jobs)
+ACCOUNTS = ["acctA", "acctB", "acctC"]
+PARTITIONS = [None, "debug", "short"]
+
+
+def decorate_groups(groups, rng=None):
+    """make the groups differ in every field that reaches a script: account, partition, job prefix, verbose,
+    distributed submitter (wall time / processes per node already vary)"""
+    for i, g in enumerate(groups):
+        g.setdefault("account", ACCOUNTS[i % 3])
+        g.setdefault("partition", PARTITIONS[(i + 1) % 3] if rng is None else rng.choice(PARTITIONS))
+        g.setdefault("prefix", "p%s" % g["name"])
+        g.setdefault("verbose", bool(i % 2) if rng is None else rng.random() < 0.5)
+        g.setdefault("distributed", True if rng is None else rng.random() < 0.6)
+    return groups
+
+
+def make_config(sc):
+    """jadeenv.make_config + the per-group HPC parameters / run options of decorate_groups"""
+    cfg = jadeenv.make_config(sc)
+    for g, grp in zip(sc["groups"], cfg.submission_groups):
+        hc = grp.submitter_params.hpc_config
+        if "account" in g:
+            hc.hpc.account = g["account"]
+        if g.get("partition"):
+            hc.hpc.partition = g["partition"]
+        if "prefix" in g:
+            hc.job_prefix = g["prefix"]
+        if "verbose" in g:
+            grp.submitter_params.verbose = bool(g["verbose"])
+    return cfg
+
+
+def gen_round_scenario(rng, max_jobs=12):
+    n = rng.choice([1, 2, 3, 4, 5, 6, 8, 10, 12]) if max_jobs >= 12 else rng.randint(1, max_jobs)
     names = JOBNAMES[:n]
     ngroups = rng.choice([1, 1, 2, 3])
     groups = []
@@ -228,6 +355,7 @@ def gen_round_scenario(rng, max_jobs=8):
         g = gen_group(rng)
         g["name"] = f"g{gi + 1}"
         groups.append(g)
+    decorate_groups(groups, rng)
     # dry run is a submission-wide user option and only meaningful for a first round
     dry = rng.random() < 0.12
     for g in groups:
@@ -240,10 +368,12 @@ def gen_round_scenario(rng, max_jobs=8):
         gi = rng.randrange(ngroups)
         g = groups[gi]
         lim = jadeenv.group_limit_seconds(g) // 60 if g["time"] else 5
+        if g["time"]:
+            lim = min(lim, g["wall_min"])     # check_job_runtimes: estimate <= wall time
         deps = [y for y in names if pos[y] < pos[x] and rng.random() < 0.35]
         jobs.append({"name": x, "deps": deps, "cancel": rng.random() < 0.4, "est": rng.randint(1, max(1, lim)),
                      "group": g["name"], "rc": 0})
-    max_nodes = rng.choice([1, 2, 3, None])
+    max_nodes = rng.choice([1, 2, 3, 4, None])
     # pre-state: a topologically-closed prefix of jobs is already done / submitted
     k_done = rng.randint(0, n // 2) if rng.random() < 0.5 else 0
     done = set(topo[:k_done])
@@ -262,8 +392,48 @@ def gen_round_scenario(rng, max_jobs=8):
             "out0": out0, "index0": index0, "oks": oks}
 
 
+def exhaustive_rounds(max_n=3, ests=(1, 2, 3)):
+    """single group, <= max_n jobs, every dependency relation, the parameter grid, max_nodes 1..3, nothing
+    active, first round"""
+    for g0, avail in exhaustive_small(max_n, ests):
+        for max_nodes in (1, 2, 3):
+            g = dict(g0, name="g1")
+            decorate_groups([g])
+            jobs = [{"name": n, "deps": list(b), "cancel": False, "est": e, "group": "g1", "rc": 0} for n, b, e in avail]
+            yield {"jobs": jobs, "groups": [g], "max_nodes": max_nodes, "done": [], "submitted": [], "out0": 0,
+                   "index0": 1, "oks": []}
+
+
+def directed_rounds():
+    scs = []
+    g = decorate_groups([{"name": "g1", "size": 500, "time": True, "wall_min": 10, "nproc": 1, "try": True, "dry": False}])[0]
+    # D1 family through the whole round
+    scs.append({"jobs": [{"name": "j2", "deps": ["j1"], "est": 3, "group": "g1", "cancel": False, "rc": 0},
+                         {"name": "j3", "deps": [], "est": 4, "group": "g1", "cancel": False, "rc": 0},
+                         {"name": "j1", "deps": [], "est": 5, "group": "g1", "cancel": False, "rc": 0}],
+                "groups": [dict(g)], "max_nodes": None, "done": [], "submitted": [], "out0": 0, "index0": 1, "oks": []})
+    # three groups whose parameters differ in every field, jobs interleaved, two slots
+    gs = decorate_groups([
+        {"name": "g1", "size": 2, "time": False, "wall_min": 5, "nproc": None, "try": True, "dry": False},
+        {"name": "g2", "size": 500, "time": True, "wall_min": 6, "nproc": 2, "try": False, "dry": False},
+        {"name": "g3", "size": 1, "time": False, "wall_min": 8, "nproc": 3, "try": True, "dry": False}])
+    jobs = []
+    for i, n in enumerate(JOBNAMES[:9]):
+        jobs.append({"name": n, "deps": ([JOBNAMES[i - 3]] if i >= 6 else []), "est": 1 + i % 4, "group": f"g{i % 3 + 1}",
+                     "cancel": False, "rc": 0})
+    for mn in (2, 5, None):
+        scs.append({"jobs": [dict(j) for j in jobs], "groups": [dict(x) for x in gs], "max_nodes": mn, "done": [],
+                    "submitted": [], "out0": 0, "index0": 3, "oks": []})
+    # sbatch fails: the slot stays free, a further batch is built
+    scs.append({"jobs": [dict(j) for j in jobs], "groups": [dict(x) for x in gs], "max_nodes": 2, "done": [],
+                "submitted": [], "out0": 0, "index0": 1, "oks": [False, True, False]})
+    return scs
+
+
 def run_round_impl(sc, tmp):
-    """Real HpcSubmitter.run() on a real Cluster prepared in the pre-state.  -> observation dict"""
+    """Real HpcSubmitter.run() on a real Cluster prepared in the pre-state.  -> observation dict.
+    Every batch is read back from what impl wrote: config_batch_N.json (jobs, remaining blockers), the
+    submission script whose srun line starts run_batch_N.sh (SBATCH directives) and that run script (options)."""
     import jade.hpc.slurm_manager as sm
     from jade.jobs.cluster import Cluster
     from jade.hpc.hpc_submitter import HpcSubmitter
@@ -271,7 +441,7 @@ def run_round_impl(sc, tmp):
     from jade.jobs.results_aggregator import ResultsAggregator
     out = tempfile.mkdtemp(prefix="rd_", dir=tmp)
     try:
-        cfg = jadeenv.make_config(sc)
+        cfg = make_config(sc)
         cfg_file = os.path.join(out, "config.json")
         cfg.dump(cfg_file)
         cluster = Cluster.create(out, cfg)
@@ -307,35 +477,55 @@ def run_round_impl(sc, tmp):
             err = type(e).__name__ + ": " + str(e)[:100]
         finally:
             sm.run_command = orig
+        # every script in the output directory that is not a run script is a submission script
+        sub_scripts = {}
+        for s in glob.glob(os.path.join(out, "*.sh")):
+            if os.path.basename(s).startswith("run_batch_"):
+                continue
+            ds, runsh, _ = jadeenv.parse_submission_script(s)
+            sub_scripts[s] = (ds, runsh)
+        sbatch_calls = [(ev[0], ev[2] if ev[0] == "sbatch" else ev[1]) for ev in fake.log if ev[0] in ("sbatch", "sbatch-fail")]
+        prefix_group = {g.get("prefix", g["name"]): g["name"] for g in sc["groups"]}
         batches = []
         for f in sorted(glob.glob(os.path.join(out, "config_batch_*.json")), key=lambda p: int(re.search(r"_batch_(\d+)\.json", p).group(1))):
             idx = int(re.search(r"_batch_(\d+)\.json", f).group(1))
             data = json.load(open(f))
             jobs = [(j["name"], sorted(j.get("blocked_by", []), key=lambda x: IDX[x])) for j in data["jobs"]]
-            scripts = glob.glob(os.path.join(out, f"*_batch_{idx}.sh"))
-            sub_scripts = [s for s in scripts if not os.path.basename(s).startswith("run_batch_")]
-            group = os.path.basename(sub_scripts[0]).split("_batch_")[0] if len(sub_scripts) == 1 else None
-            ok = None
-            called = False
-            for ev in fake.log:
-                if ev[0] == "sbatch" and os.path.basename(ev[2]) == f"{group}_batch_{idx}.sh":
-                    ok, called = True, True
-                if ev[0] == "sbatch-fail" and os.path.basename(ev[1]) == f"{group}_batch_{idx}.sh":
-                    ok, called = False, True
-            ds, runsh, _ = jadeenv.parse_submission_script(sub_scripts[0]) if len(sub_scripts) == 1 else ({}, None, "")
-            rs = jadeenv.parse_run_script(runsh) if runsh and os.path.exists(runsh) else {}
-            batches.append({"index": idx, "group": group, "jobs": jobs, "ok": ok, "sbatch_called": called,
-                            "directives": ds, "run": {k: v for k, v in rs.items() if k != "text"},
+            runsh_expected = os.path.join(out, f"run_batch_{idx}.sh")
+            mine = [s for s, (ds, runsh) in sub_scripts.items() if runsh == runsh_expected]
+            ds = sub_scripts[mine[0]][0] if len(mine) == 1 else {}
+            rs = jadeenv.parse_run_script(runsh_expected) if os.path.exists(runsh_expected) else {"error": "no run script"}
+            calls = [kind for kind, script in sbatch_calls if script in mine]
+            jobname = ds.get("job-name", "")
+            prefix = jobname[: -len(f"_batch_{idx}")] if jobname.endswith(f"_batch_{idx}") else None
+            ds_norm = {k: (os.path.basename(v) if k in ("output", "error") else v) for k, v in ds.items()}
+            batches.append({"index": idx, "group": prefix_group.get(prefix), "jobs": jobs,
+                            "ok": (calls == ["sbatch"]) if calls else None, "sbatch_calls": len(calls),
+                            "sbatch_called": bool(calls), "n_submission_scripts": len(mine),
+                            "script_name": os.path.basename(mine[0]) if len(mine) == 1 else None,
+                            "directives": ds_norm, "output_dir_ok": ds.get("output", "").startswith(out + "/"),
+                            "run": {k: (os.path.basename(v) if k == "config_file" else v) for k, v in rs.items() if k not in ("text", "output")},
+                            "run_output_ok": rs.get("output") == out,
+                            "run_config_ok": rs.get("config_file") == f,
                             "config_groups": [g["name"] for g in data.get("submission_groups", [])]})
+        stray = [os.path.basename(s) for s, (ds, runsh) in sub_scripts.items()
+                 if not any(runsh == os.path.join(out, f"run_batch_{b['index']}.sh") for b in batches)]
+        stray_calls = [os.path.basename(script) for kind, script in sbatch_calls if script not in sub_scripts]
         obs = {"pre_not_submitted": pre, "batches": batches, "error": err,
+               "n_sbatch_calls": len(sbatch_calls), "stray_scripts": stray, "stray_sbatch": stray_calls,
                "final_index": cluster.job_status.batch_index, "final_ids": list(cluster.job_status.hpc_job_ids),
                "states": {j.name: j.state.value for j in cluster.job_status.jobs},
                "blocked": {j.name: sorted(j.blocked_by) for j in cluster.job_status.jobs},
                "submitted_jobs": cluster.config.submitted_jobs, "completed_jobs": cluster.config.completed_jobs,
-               "marker_left": os.path.exists(os.path.join(out, "submitter.lock")), "out": out}
+               "marker_left": os.path.exists(os.path.join(out, "submitter.lock"))}
         return obs
     finally:
         shutil.rmtree(out, ignore_errors=True)
+
+
+def _walltime(g):
+    wall = g.get("wall_min", 60)
+    return "%d:%02d:00" % (wall // 60, wall % 60)
 
 
 def round_oracle(sc, obs):
@@ -351,23 +541,31 @@ def round_oracle(sc, obs):
         probs.append(("batch-index", f"batch indices {idxs} are not consecutive from {sc['index0']}"))
     if obs["error"] is None and obs["final_index"] != sc["index0"] + len(idxs):
         probs.append(("batch-index-persisted", "persisted batch index does not follow the batches written"))
+    if obs.get("stray_scripts") or obs.get("stray_sbatch"):
+        probs.append(("stray-submission", f"submission scripts / sbatch calls not tied to a batch: {obs.get('stray_scripts')} {obs.get('stray_sbatch')}"))
     n_ok = 0
     for b in obs["batches"]:
-        g = gmap.get(b["group"])
         names = [n for n, _ in b["jobs"]]
-        if g is None:
-            probs.append(("batch-group", f"batch {b['index']} has no single submission script/group"))
-            continue
         if not names:
             probs.append(("batch-empty", f"batch {b['index']} is empty"))
+        if len(set(names)) != len(names):
+            probs.append(("job-twice-in-batch", f"batch {b['index']} lists a job twice"))
         if set(names) & seen:
             probs.append(("job-in-two-batches", f"jobs {sorted(set(names) & seen)} placed in two batches of one round"))
         seen |= set(names)
+        # the group is the one the JOBS belong to; everything else must agree with it
+        jgroups = sorted({jmap[n]["group"] for n in names if n in jmap})
         for n in names:
             if n not in pre:
                 probs.append(("batch-job-not-available", f"job {n} in batch {b['index']} was not NOT_SUBMITTED"))
-            elif jmap[n]["group"] != b["group"]:
-                probs.append(("batch-mixed-groups", f"job {n} of group {jmap[n]['group']} in a batch of {b['group']}"))
+        if len(jgroups) > 1:
+            probs.append(("batch-mixed-groups", f"batch {b['index']} holds jobs of groups {jgroups}"))
+        g = gmap.get(jgroups[0]) if jgroups else None
+        if g is None:
+            continue
+        if b.get("n_submission_scripts", 1) != 1:
+            probs.append(("batch-script", f"batch {b['index']} has {b.get('n_submission_scripts')} submission scripts"))
+            continue
         if g["time"]:
             if 60 * sum(jmap[n]["est"] for n in names) > jadeenv.group_limit_seconds(g):
                 probs.append(("batch-time-limit", f"batch {b['index']} exceeds walltime x processes"))
@@ -376,27 +574,44 @@ def round_oracle(sc, obs):
         for n, written in b["jobs"]:
             if n in pre and set(written) != set(pre[n]):
                 probs.append(("batch-blockers-written", f"blocked_by of {n} in batch config differs from remaining blockers"))
-            if written and not g["try"]:
+            if n in pre and pre[n] and not g["try"]:
                 probs.append(("batch-blocked-no-try", f"blocked job {n} batched without try-add-blocked"))
-            if not set(written) <= set(names):
+            if n in pre and not set(pre[n]) <= set(names):
                 probs.append(("batch-blockers-open", f"job {n} batched without all unfinished blockers in the batch"))
         if g["dry"]:
             if b["sbatch_called"]:
                 probs.append(("dry-run-sbatch", f"dry-run batch {b['index']} was handed to sbatch"))
-        elif not b["sbatch_called"]:
-            probs.append(("batch-not-submitted", f"batch {b['index']} written but never handed to sbatch"))
+        elif b.get("sbatch_calls", 1 if b["sbatch_called"] else 0) != 1:
+            probs.append(("batch-not-submitted-once", f"batch {b['index']} handed to sbatch {b.get('sbatch_calls')} times"))
         if b["ok"] or g["dry"]:
             n_ok += 1
+        # HPC parameters: the submission script must carry this group's account / partition / wall time / name
         ds = b["directives"]
-        wall = g.get("wall_min", 60)
-        if ds.get("job-name") != f"{b['group']}_batch_{b['index']}" or ds.get("time") != "%d:%02d:00" % (wall // 60, wall % 60):
-            probs.append(("batch-params", f"batch {b['index']} submitted with parameters of another group: {ds}"))
+        want = {"account": g.get("account", "acct"), "time": _walltime(g),
+                "job-name": f"{g.get('prefix', g['name'])}_batch_{b['index']}"}
+        if g.get("partition"):
+            want["partition"] = g["partition"]
+        got = {k: ds.get(k) for k in ("account", "time", "job-name", "partition") if k in ds or k in want}
+        if got != want or not b.get("output_dir_ok", True):
+            probs.append(("batch-params", f"batch {b['index']} of group {g['name']} submitted with other HPC parameters: {got} (expected {want})"))
+        # run options: the run script must start run-jobs on this batch's config with this group's options
         r = b["run"]
-        if r and (r.get("nproc") != g.get("nproc") or r.get("distributed") != g.get("distributed", True)
-                  or not str(r.get("config_file", "")).endswith(f"config_batch_{b['index']}.json")):
-            probs.append(("batch-run-options", f"run script of batch {b['index']} does not carry its group's options: {r}"))
+        want_r = {"config_file": f"config_batch_{b['index']}.json", "distributed": g.get("distributed", True),
+                  "nproc": g.get("nproc"), "verbose": bool(g.get("verbose", False))}
+        got_r = {k: r.get(k) for k in want_r}
+        if got_r != want_r or r.get("unknown") or r.get("error") or not b.get("run_output_ok", True) or not b.get("run_config_ok", True):
+            probs.append(("batch-run-options", f"run script of batch {b['index']} does not carry its group's options: {r} (expected {want_r})"))
+        if b["group"] != g["name"]:
+            probs.append(("batch-group-name", f"batch {b['index']} of group {g['name']} submitted under the name of {b['group']}"))
     if n_ok > max(0, depth - sc["out0"]):
         probs.append(("max-nodes", f"{n_ok} batches handed to the HPC with {sc['out0']} active and max-nodes {sc['max_nodes']}"))
+    # maximality: free slots left => every job without unfinished blockers of every group was placed
+    if obs["error"] is None and sc["out0"] + n_ok < depth:
+        left = [n for n, bl in obs["pre_not_submitted"] if not bl and n not in seen and jmap[n]["group"] in gmap]
+        fits = all((not gmap[jmap[n]["group"]]["time"]) or
+                   60 * jmap[n]["est"] <= jadeenv.group_limit_seconds(gmap[jmap[n]["group"]]) for n in left)
+        if left and fits:
+            probs.append(("not-maximal", f"free slots left but unblocked jobs {left} were not placed"))
     if obs["error"]:
         probs.append(("round-exception", "submitter round raised " + obs["error"]))
     return probs
@@ -405,61 +620,128 @@ def round_oracle(sc, obs):
 def round_terms(sc, obs):
     gidx = {g["name"]: i + 1 for i, g in enumerate(sc["groups"])}
     jmap = {j["name"]: j for j in sc["jobs"]}
+    gdry = {g["name"]: bool(g.get("dry")) for g in sc["groups"]}
     depth = sc["max_nodes"] if sc["max_nodes"] is not None else 2 ** 63 - 1
     ns = clist([cjob_term(n, bl, jmap[n]["est"], gidx[jmap[n]["group"]]) for n, bl in obs["pre_not_submitted"]])
     inp = (f"({cN(depth)}, {cN(sc['out0'])}, {cN(sc['index0'])}, {clist([cbool(b) for b in sc['oks']])}, "
            f"{clist([gparams_term(g, gidx[g['name']]) for g in sc['groups']])}, {ns})")
     subs = clist([f"({cN(b['index'])}, {cN(gidx.get(b['group'], 0))}, "
                   + clist([f"({cN(IDX[n])}, {clist([cN(IDX[x]) for x in bl])})" for n, bl in b["jobs"]])
-                  + f", {cbool(bool(b['ok']) or bool(next((g for g in sc['groups'] if g['name'] == b['group']), {}).get('dry')))})"
+                  + f", {cbool(bool(b['ok']) or gdry.get(b['group'], False))})"
                   for b in obs["batches"]])
-    exp = f"(Some ({subs}, {cN(sc['index0'] + len(obs['batches']))}))"
+    n_sbatch_model = "%d%%nat" % obs.get("n_sbatch_calls", 0)
+    exp = f"(Some ({subs}, {cN(sc['index0'] + len(obs['batches']))}, {n_sbatch_model}))"
     return inp, exp
 
 
+# model side: batches (index, group, jobs with blockers, queued?), next index, number of sbatch outcomes consumed
 ROUND_FN = ("fun c => match c with (depth, out0, index0, oks, groups, ns) => "
-            "match submit_round depth out0 index0 oks groups ns with "
-            "| ROk r => Some (map (fun s => (sb_index s, sb_group s, map (fun j => (jname j, jblocked j)) (sb_jobs s), sb_ok s)) (r_subs r), r_index r) "
+            "let oks' := (oks ++ repeat true 64)%list in "
+            "match submit_round depth out0 index0 oks' groups ns with "
+            "| ROk r => Some (map (fun s => (sb_index s, sb_group s, map (fun j => (jname j, jblocked j)) (sb_jobs s), sb_ok s)) (r_subs r), r_index r, "
+            "(length oks' - length (r_oks r))%nat) "
             "| ROutOfFuel => None end end")
-ROUND_EQB = ("option_eqb (prod_eqb (list_eqb (prod_eqb (prod_eqb (prod_eqb N.eqb N.eqb) (list_eqb (prod_eqb N.eqb (list_eqb N.eqb)))) Bool.eqb)) N.eqb)")
+ROUND_EQB = ("option_eqb (prod_eqb (prod_eqb (list_eqb (prod_eqb (prod_eqb (prod_eqb N.eqb N.eqb) (list_eqb (prod_eqb N.eqb (list_eqb N.eqb)))) Bool.eqb)) N.eqb) Nat.eqb)")
 ROUND_IN = "N * N * N * list bool * list gparams * list cjob"
-ROUND_OUT = "option (list (N * N * list (N * list N) * bool) * N)"
+ROUND_OUT = "option (list (N * N * list (N * list N) * bool) * N * nat)"
 
 
-def run_rounds(chk, tmp, n_random, sig_prefix=""):
-    import jade.jobs.cluster  # noqa: F401  (import errors surface here)
-    cmp_ = core.CoqCompare("rd", IMPORTS, ROUND_FN, ROUND_EQB, ROUND_IN, ROUND_OUT, shard=200)
-    dist = {"rounds": 0, "groups": {}, "with_prestate": 0, "batches": {}, "sbatch_failures": 0, "dry_run": 0,
-            "queue_full_at_start": 0, "max_nodes": {}}
-    scs = []
-    # directed: D1 family through the whole round
-    scs.append({"jobs": [{"name": "j2", "deps": ["j1"], "est": 3, "group": "g1", "cancel": False, "rc": 0},
-                         {"name": "j3", "deps": [], "est": 4, "group": "g1", "cancel": False, "rc": 0},
-                         {"name": "j1", "deps": [], "est": 5, "group": "g1", "cancel": False, "rc": 0}],
-                "groups": [{"name": "g1", "size": 500, "time": True, "wall_min": 10, "nproc": 1, "try": True, "dry": False}],
-                "max_nodes": None, "done": [], "submitted": [], "out0": 0, "index0": 1, "oks": []})
+def new_round_compare():
+    return core.CoqCompare("rd", IMPORTS, ROUND_FN, ROUND_EQB, ROUND_IN, ROUND_OUT, shard=400)
+
+
+def _round_worker(args):
+    import logging
+    logging.disable(logging.CRITICAL)
+    sc, tmp = args
+    return run_round_impl(sc, tmp)
+
+
+def run_many_rounds(scs, tmp, parallel=True):
+    """impl observations for many scenarios (process pool: every round is an independent real Cluster)"""
+    if not parallel or len(scs) < 64:
+        return [run_round_impl(sc, tmp) for sc in scs]
+    import multiprocessing as mp
+    ctx = mp.get_context("fork")
+    with ctx.Pool(min(core.NCPU, 12)) as pool:
+        return pool.map(_round_worker, [(sc, tmp) for sc in scs], chunksize=16)
+
+
+def dry_pair_oracle(sc, obs_wet, obs_dry):
+    """same first-round batch files with and without dry run; nothing handed to sbatch with dry run"""
+    probs = []
+
+    def view(o):
+        return [(b["index"], b["group"], b["jobs"], b["script_name"], b["directives"], b["run"]) for b in o["batches"]]
+    if view(obs_wet) != view(obs_dry):
+        probs.append(("dry-run-different-batches", "dry run wrote other batch files than the real first round"))
+    if obs_dry["n_sbatch_calls"] or any(b["sbatch_called"] for b in obs_dry["batches"]):
+        probs.append(("dry-run-sbatch", "dry run handed a batch to sbatch"))
+    if any(b["n_submission_scripts"] != 1 for b in obs_dry["batches"]):
+        probs.append(("dry-run-no-script", "dry run did not write exactly one submission script per batch"))
+    return probs
+
+
+def round_scenarios(chk, n_random, n_dry_pairs, exhaustive_fraction):
+    scs = directed_rounds()
+    n_dir = len(scs)
+    ex = list(exhaustive_rounds(3))
+    if exhaustive_fraction > 1:
+        ex = ex[chk.rng.randrange(exhaustive_fraction)::exhaustive_fraction]
+    scs += ex
     for _ in range(n_random):
         scs.append(gen_round_scenario(chk.rng))
-    for k, sc in enumerate(scs):
-        obs = run_round_impl(sc, tmp)
+    pairs = []
+    while len(pairs) < n_dry_pairs:
+        sc = gen_round_scenario(chk.rng)
+        if sc["done"] or sc["submitted"] or sc["out0"]:
+            continue
+        wet = json.loads(json.dumps(sc))
+        wet["oks"] = []
+        for g in wet["groups"]:
+            g["dry"] = False
+        dry = json.loads(json.dumps(wet))
+        for g in dry["groups"]:
+            g["dry"] = True
+        pairs.append((len(scs), len(scs) + 1))
+        scs += [wet, dry]
+    return scs, pairs, {"directed": n_dir, "exhaustive_single_group_upto_3_jobs": len(ex),
+                        "exhaustive_fraction": "1/%d" % exhaustive_fraction, "random_upto_12_jobs_3_groups": n_random,
+                        "dry_run_pairs": len(pairs)}
+
+
+def run_rounds(chk, tmp, n_random, sig_prefix="", n_dry_pairs=0, exhaustive_fraction=40, parallel=True):
+    import jade.jobs.cluster  # noqa: F401  (import errors surface here)
+    cmp_ = new_round_compare()
+    dist = {"rounds": 0, "groups": {}, "with_prestate": 0, "batches": {}, "sbatch_failures": 0, "dry_run": 0,
+            "queue_full_at_start": 0, "max_nodes": {}, "jobs": {}}
+    scs, pairs, desc = round_scenarios(chk, n_random, n_dry_pairs, exhaustive_fraction)
+    dist["scope"] = desc
+    observations = run_many_rounds(scs, tmp, parallel)
+    for k, (sc, obs) in enumerate(zip(scs, observations)):
         for sig, msg in round_oracle(sc, obs):
             chk.violation(sig_prefix + sig, msg, {"component": "HpcSubmitter.run (submission part)", "scenario": sc,
-                                                 "impl_observation": {k2: v for k2, v in obs.items() if k2 != "out"}})
+                                                 "impl_observation": obs})
         inp, exp = round_terms(sc, obs)
-        cmp_.add(inp, exp, {"scenario": sc, "impl": {k2: v for k2, v in obs.items() if k2 in ("batches", "error", "final_index")}})
+        cmp_.add(inp, exp, {"scenario": sc, "impl": {k2: v for k2, v in obs.items() if k2 in ("batches", "error", "final_index", "n_sbatch_calls")}})
         nb = len(obs["batches"])
         chk.count(("round", json.dumps(sc, sort_keys=True)), nontrivial=nb >= 1 and len(sc["jobs"]) >= 2)
         dist["rounds"] += 1
         dist["groups"][len(sc["groups"])] = dist["groups"].get(len(sc["groups"]), 0) + 1
+        dist["jobs"][len(sc["jobs"])] = dist["jobs"].get(len(sc["jobs"]), 0) + 1
         dist["with_prestate"] += bool(sc["done"] or sc["submitted"])
         dist["batches"][nb] = dist["batches"].get(nb, 0) + 1
         dist["sbatch_failures"] += sum(1 for b in obs["batches"] if b["ok"] is False)
         dist["dry_run"] += any(g["dry"] for g in sc["groups"])
         dist["queue_full_at_start"] += (sc["max_nodes"] is not None and sc["out0"] >= sc["max_nodes"])
         dist["max_nodes"][str(sc["max_nodes"])] = dist["max_nodes"].get(str(sc["max_nodes"]), 0) + 1
-        if k in (1, 7):
+        if k in (1, desc["directed"] + desc["exhaustive_single_group_upto_3_jobs"] + 3):
             chk.sample({"kind": "round", "scenario": sc, "impl_batches": obs["batches"]})
-    bad = cmp_.run()
+    for a, b in pairs:
+        for sig, msg in dry_pair_oracle(scs[a], observations[a], observations[b]):
+            chk.violation(sig_prefix + sig, msg, {"component": "HpcSubmitter.run (dry run vs real first round)", "scenario": scs[b],
+                                                 "impl_observation_real": observations[a], "impl_observation_dry_run": observations[b]})
+    bad = cmp_.run(timeout=1500)
     chk.oblige("correspondence Batch.submit_round vs HpcSubmitter.run on a real Cluster (%d rounds)" % len(cmp_.cases),
                not bad, "first differing: %s" % bad[:5])
     for i in bad[:3]:
